@@ -2,9 +2,9 @@
 
 package config
 
-// Accessors of the running configuration: assumed to have no heap effect.
+// Accessors of the running configuration: no heap effect (frame PROVED).
 //@ func GetTimeStampKey
-//@   assumed
+//@   props C15 C16
 //@   pure
 //@ end
 
@@ -28,6 +28,6 @@ package config
 //@ end
 
 //@ func IsDebugMode
-//@   assumed
+//@   props C18
 //@   pure
 //@ end
